@@ -1,4 +1,9 @@
 //! vf-ref: reference models with no dependency on /repo.
+pub mod coin;
 pub mod field;
+pub mod hashes;
+pub mod merkle;
 pub mod poly;
+pub mod rescue;
+pub mod rescue_consts;
 pub use field::{El, Field, Fp, F128, F62, F64};
